@@ -622,6 +622,35 @@ async def s_queue() -> List[str]:
     return viol
 
 
+async def s_cancelled_flush() -> List[str]:
+    """the task awaiting flush() is cancelled (wait_for timeout) while pool tasks sit in slow end/cancel callbacks:
+    gather passes the cancellation on to them; afterwards the capacity must be exactly the pool size (C01, C02)"""
+    from asyncio_taskpool import TaskPool
+
+    pool = TaskPool(pool_size=2)
+    pr = Probe(pool)
+    pool.apply(pr.work, kwargs={"tag": "a", "gate": "a"}, num=2, end_callback=pr.slow_end())
+    await ticks()
+    pr.gate("a").set()
+    await ticks()  # both tasks sit in their slow end callbacks (already counted as ended, slots released)
+    fl = asyncio.create_task(pool.flush(return_exceptions=True))
+    await ticks()
+    fl.cancel()  # e.g. wait_for(pool.flush(), timeout) timing out: gather cancels the tasks inside their callbacks
+    await asyncio.gather(fl, return_exceptions=True)
+    await ticks(6)
+    if pool._enough_room._value != 2:
+        pr.viol.append(f"after a cancelled flush {pool._enough_room._value} of 2 slots are free")
+    pool.apply(pr.work, kwargs={"tag": "b", "gate": "b"}, num=4)
+    await ticks(6)
+    pr.check_capacity("second batch", 2)
+    if pool.num_running != 2 or not pool.is_full:
+        pr.viol.append(f"second batch: num_running={pool.num_running}, is_full={pool.is_full} in a pool of size 2 with 4 requested")
+    pr.gate("b").set()
+    await ticks(8)
+    pr.check_restored("end", 2)
+    return pr.viol
+
+
 async def s_control_session() -> List[str]:
     """a real ControlSession (handshake, listen loop) over a stand-in pool class with concrete annotations (the shipped
     classes cannot be served on this tree: known finding F6); replies are compared with direct calls on a twin (C16-C18)"""
@@ -732,11 +761,12 @@ SCENARIOS: Dict[str, Callable] = {
     "lock_while_spawner_waits": s_lock_while_spawner_waits,
     "queue": s_queue,
     "control_session": s_control_session,
+    "cancelled_flush": s_cancelled_flush,
 }
 
 BY_PROPERTY = {
-    "C01": ["blocked_spawners", "lifecycle_mix", "lock_while_spawner_waits", "exception_in_body_map"],
-    "C02": ["blocked_spawners", "lifecycle_mix", "slow_callbacks_flush", "exception_in_body_map", "lock_while_spawner_waits"],
+    "C01": ["blocked_spawners", "lifecycle_mix", "lock_while_spawner_waits", "exception_in_body_map", "cancelled_flush"],
+    "C02": ["blocked_spawners", "lifecycle_mix", "slow_callbacks_flush", "exception_in_body_map", "lock_while_spawner_waits", "cancelled_flush"],
     "C03": ["lifecycle_mix", "slow_callbacks_flush", "cancel_semantics"],
     "C04": ["blocked_spawners", "lifecycle_mix"],
     "C05": ["exception_in_body_map", "group_cancel"],
